@@ -343,6 +343,8 @@ func (it *Interp) finishPath() (feasible bool) {
 
 // sharedWork is the path worklist shared by the workers of one harness.
 type sharedWork struct {
+	deadline  time.Time
+	timedOut  bool
 	mu        sync.Mutex
 	cond      *sync.Cond
 	items     [][]int
@@ -372,6 +374,13 @@ func (w *sharedWork) pop() ([]int, bool) {
 		if w.paths >= w.maxPaths {
 			if len(w.items) > 0 {
 				w.truncated = true
+			}
+			w.cond.Broadcast()
+			return nil, false
+		}
+		if !w.deadline.IsZero() && time.Now().After(w.deadline) {
+			if len(w.items) > 0 {
+				w.timedOut = true
 			}
 			w.cond.Broadcast()
 			return nil, false
@@ -478,6 +487,9 @@ func runHarness(prog *ssa.Program, pkgs map[string]*ssa.Package, cfg *HarnessCfg
 		}
 		fst := &forkStat{}
 		sw := newSharedWork(cfg.MaxPaths - rep.Paths)
+		if cfg.MaxWallS > 0 {
+			sw.deadline = t0.Add(time.Duration(cfg.MaxWallS * float64(time.Second)))
+		}
 		sw.push([]int{})
 		var wg sync.WaitGroup
 		var mu sync.Mutex
@@ -542,6 +554,9 @@ func runHarness(prog *ssa.Program, pkgs map[string]*ssa.Package, cfg *HarnessCfg
 		wg.Wait()
 		if sw.truncated {
 			rep.Truncated = true
+		}
+		if sw.timedOut {
+			rep.TimedOut = true
 		}
 	}
 	rep.Wall = time.Since(t0).Seconds()
@@ -795,6 +810,12 @@ func main() {
 		if h.MaxPaths == 0 {
 			h.MaxPaths = 200000
 		}
+		if h.MaxWallS == 0 {
+			h.MaxWallS = 900
+			if *tier == "thorough" {
+				h.MaxWallS = 3600
+			}
+		}
 		hs = append(hs, h)
 	}
 	if len(hs) == 0 {
@@ -978,6 +999,9 @@ func main() {
 		}
 		if rep.Truncated {
 			reasons = append(reasons, "path budget exhausted")
+		}
+		if rep.TimedOut {
+			reasons = append(reasons, fmt.Sprintf("wall-clock budget of %.0f s exhausted with paths left unexplored", rep.Cfg.MaxWallS))
 		}
 		if len(rep.SolverErrors) > 0 {
 			reasons = append(reasons, "solver error: "+rep.SolverErrors[0])
